@@ -76,6 +76,38 @@ def label(act):
     return s + "=" + str(act.get("res"))
 
 
+def multi_store(tier, seed, t0):
+    """C08 also speaks about multi-store operations (reorganisation, rollback): crash points BETWEEN
+    the store calls of a headers message are explored on the BlockManager model and replayed on the
+    real block manager; its coverage is merged into this check's evidence."""
+    from . import blockmanager
+    evdir = core.scratch("c08bm")
+    old = os.environ.get("VERIF_EVIDENCE_DIR")
+    os.environ["VERIF_EVIDENCE_DIR"] = evdir
+    try:
+        rc = blockmanager.run("C08", "crash3" if tier == "thorough" else "crash", seed)
+        sub = json.load(open(os.path.join(evdir, "C08.json")))
+    finally:
+        if old is None:
+            os.environ.pop("VERIF_EVIDENCE_DIR", None)
+        else:
+            os.environ["VERIF_EVIDENCE_DIR"] = old
+        shutil.rmtree(evdir, ignore_errors=True)
+    fn = os.path.join(os.environ.get("VERIF_EVIDENCE_DIR", os.path.join(core.VERIF, "evidence")), "C08.json")
+    ev = json.load(open(fn))
+    c, sc_ = ev["coverage"], sub["coverage"]
+    c["multi_store_blockmanager"] = {k: sc_[k] for k in sc_ if k not in ("samples",)}
+    c["states"] += sc_["states"]
+    c["transitions"] += sc_["transitions"]
+    c["traces_validated_against_impl"] += sc_["traces_validated_against_impl"]
+    c["samples"] += sc_["samples"][:2]
+    ev["violations"] = ev.get("violations", 0) + sub.get("violations", 0)
+    ev["wall_s"] = round(time.time() - t0, 2)
+    json.dump(ev, open(fn + ".tmp", "w"), indent=1)
+    os.replace(fn + ".tmp", fn)
+    return rc
+
+
 def run(prop_id, tier, seed, replay=None):
     t0 = time.time()
     rng = random.Random(seed)
@@ -102,8 +134,11 @@ def run(prop_id, tier, seed, replay=None):
                                           os.path.join(sc, "obs.ndjson"), sc)
         verdict = family.judge([SPEC], "HeaderStoreProps", PROPS[prop_id], prop_id, observed, label=label)
         dr = family.drift(pf, observed, label=label)
-        return family.finish(prop_id, tier, seed, t0, tlc, g, paths, observed, verdict, dr,
-                             {"config": consts, "edges_only_reachable_through_model_violation": unreach},
-                             ASSUMPTIONS, label=label)
+        rc = family.finish(prop_id, tier, seed, t0, tlc, g, paths, observed, verdict, dr,
+                           {"config": consts, "edges_only_reachable_through_model_violation": unreach},
+                           ASSUMPTIONS, label=label)
+        if prop_id == "C08" and not replay:
+            rc = max(rc, multi_store(tier, seed, t0))
+        return rc
     finally:
         shutil.rmtree(sc, ignore_errors=True)
